@@ -45,7 +45,7 @@ CHECKS["C04"] = dict(
 )
 CHECKS["C11"] = dict(
     category="proof",
-    text="Histories query -> public mutator -> query are executed symbolically on the real source for every cache/mutator pair the property lists that the model reaches: TrajectoryPrediction.occupancy_set vs translate_rotate / trajectory / shape setters (also through DynamicObstacle), DynamicObstacle occupancy/state vs prediction setter / update_prediction / update_initial_state / translate_rotate, update_initial_state history bookkeeping (history lengths 0-3 x max 1,2,5), TrafficLightCycle / TrafficLight state vs cycle_elements / time_offset / cycle replacement, Lanelet polygon and distance vs translate_rotate. Postcondition: the second answer equals the answer of an object freshly built from the current primary data; discharged by z3 for all values.",
+    text="Histories query -> public mutator -> query are executed symbolically on the real source for every cache/mutator pair the property lists that the model reaches: TrajectoryPrediction.occupancy_set vs translate_rotate / trajectory / shape setters (also through DynamicObstacle), DynamicObstacle occupancy/state vs prediction setter / update_prediction / update_initial_state / translate_rotate, update_initial_state history bookkeeping (history lengths 0-3 x max 1,2,5), TrafficLightCycle / TrafficLight state vs cycle_elements / time_offset / cycle replacement, Lanelet polygon and distance vs translate_rotate, Lanelet polygon / distance / inner distance vs convert_to_2d (3-D vertices). Postcondition: the second answer equals the answer of an object freshly built from the current primary data; discharged by z3 for all values.",
     note="traffic-light cycles are also edited through the TrafficLight that owns them and queried through the light at the same time step; one mutator per history (the inductive argument: each mutator re-establishes cache coherence, which is what each contract proves from a populated cache); LaneletNetwork spatial index (STRtree) coherence is covered under C06, not here; in-place mutation of exposed lists is outside any method contract; floats are reals",
     technique="deductive: AST symbolic execution of real source over operation histories + sidecar contracts, VCs discharged by z3",
     design_ref="5/C11",
@@ -53,7 +53,7 @@ CHECKS["C11"] = dict(
 
 CHECKS["C12"] = dict(
     category="proof",
-    text="For each of 54 scenario-element classes two instances are built through the public constructor with independent symbolic attribute values and the real __eq__/__hash__ source is executed symbolically: reflexivity, x == deepcopy(x), symmetry, 'all attributes agree => equal', 'exactly one constructor attribute differs (by more than 1e-10 if real) => unequal' (every attribute), hash totality (also with default optional arguments) and 'equal => equal hashes' are postconditions discharged by z3 for all values; discrete attributes (ids, enums, flags, member lists) and permuted insertion orders of id sets are covered by per-class variants.",
+    text="For each of 54 scenario-element classes two instances are built through the public constructor with independent symbolic attribute values and the real __eq__/__hash__ source is executed symbolically: reflexivity, x == deepcopy(x), symmetry, 'all attributes agree => equal', 'exactly one constructor attribute differs (by more than 1e-10 if real) => unequal' (every attribute), hash totality (also with default optional arguments) and 'equal => equal hashes' are postconditions discharged by z3 for all values; discrete attributes (ids, enums, flags, member lists) and permuted insertion orders of id sets are covered by per-class variants (Intersection also: same number of incomings, one incoming with another incoming_id, alone and next to an incoming matched by id).",
     note="plus, on concrete pairs, 18 'containers of different size' contracts (a trajectory / prediction / shape group / polygon / lanelet / goal region / cycle / sign / intersection / planning-problem set / network whose list or set is a strict prefix or subset of the other's is unequal in both directions); hash() is an uninterpreted function of the canonical tuple (numbers by value, frozensets commutative); np.array2string(np.around(a,10)) and str(float) are injective functions of the (rounded) values; round(x,10) is within 0.5e-10 of x; nested components of composite classes carry a few symbolic leaves each (their own class contract covers all of their attributes); collections have small concrete sizes",
     technique="deductive: AST symbolic execution of real __eq__/__hash__ source on two symbolic instances per class, VCs discharged by z3",
     design_ref="5/C12",
@@ -70,7 +70,7 @@ CHECKS["C09"] = dict(
 CHECKS["C10"] = dict(
     category="proof",
     text="LaneletNetwork.remove_lanelet / remove_traffic_sign / remove_traffic_light / remove_intersection, the three cleanup_* functions, Scenario.remove_lanelet with remove_hanging_lanelet_members, create_from_lanelet_list and create_from_lanelet_network (shape + excluded types) are executed symbolically from the real source on a network template (4 lanelets with predecessor/successor/adjacency relations, 2 signs, 2 lights, a stop line, an intersection with incoming and crossing) whose ids are ALL symbolic; the removed id is symbolic too (covers every element and a non-existing id). Postconditions: no remaining element refers to a removed id (all relation kinds incl. stop-line references, incoming/successor/crossing sets), every remaining lanelet keeps exactly its old relations minus the removed ids with unchanged geometry, nothing else disappears, signs/lights vanish with a lanelet iff no remaining lanelet references them; cut-out keeps exactly the lanelets whose polygon intersects the shape (abstract predicate) and whose types are not excluded.",
-    note="the template carries a stop line with only a light reference and one with only a sign reference, a traffic light referenced by no lanelet, a right-turn-only incoming, a right neighbour driving in the opposite direction; cut-outs: an incoming is kept exactly when one of its incoming lanelets and one of its successors is kept, its successor sets restricted to the kept lanelets; one network template (relation structure fixed, ids symbolic); sequences of removals follow by induction because each operation re-establishes no-dangling from a no-dangling network; shapely intersects() is an uninterpreted predicate; deepcopy modelled structurally",
+    note="the template carries a stop line with only a light reference and one with only a sign reference, a traffic light referenced by no lanelet, a right-turn-only incoming, a right neighbour driving in the opposite direction; LaneletNetwork.remove_lanelet (with rtree=True and with rtree=False) and the two-removal sequence run on the template extended by a fifth lanelet without lanelet relations that only the intersection refers to (a crossing); cut-outs: an incoming is kept exactly when one of its incoming lanelets and one of its successors is kept, its successor sets restricted to the kept lanelets; one network template (relation structure fixed, ids symbolic); sequences of removals follow by induction because each operation re-establishes no-dangling from a no-dangling network; shapely intersects() is an uninterpreted predicate; deepcopy modelled structurally",
     technique="deductive: AST symbolic execution of real source with symbolic ids on a network template, invariant + frame postconditions discharged by z3",
     design_ref="5/C10",
 )
@@ -118,7 +118,7 @@ CHECKS["C15"] = dict(
 CHECKS["C18"] = dict(
     category="proof",
     text="Read-only operations are executed symbolically from the real source on scenarios / planning problems with symbolic content and the observable view (all constructor-visible attributes of every reachable object; declared caches and derived geometry excluded) is compared before and after: occupancy_at_time for every obstacle role (incl. trajectories of states without an orientation attribute), occupancies_at_time_step, obstacle_states_at_time_step, find_lanelet_by_position, traffic-light state, lanelet distance / polygon, GoalRegion.is_reached (point-mass state), __eq__ / __hash__ of scenario and planning-problem set, deepcopy, LaneletNetwork.__getstate__, and writing to XML. Postcondition view' == view (tolerance 0), discharged by z3.",
-    note="route queries (predecessors / successors in range) through lanelets whose reference lists are not ascending; export (protobuf, then XML) of planning problems whose goal is given by lanelets with a sparse goal-lanelet map; drawing / rendering (matplotlib) is not under contract, and numpy views are modelled as copies, so a write through a view that aliases model data (e.g. ascontiguousarray of a slice) is outside the encoding; protobuf export IS under contract (pbmodel); the scenario id carries an unsorted prediction-id list and the network a lanelet built with default arguments so that in-place normalisations show; pickling is covered through __getstate__/__setstate__ only; 'exporting before and after gives the same file' follows from view equality plus C15",
+    note="route queries (predecessors / successors in range) through lanelets whose reference lists are not ascending; export (protobuf, then XML) of planning problems whose goal is given by lanelets with a sparse goal-lanelet map; drawing the lanelet network (MPRenderer.draw_lanelet_network: solid line markings, centre line coloured by a traffic light, stop line, border vertices; 2-D and 3-D boundary polylines; thorough tier also labels) IS under contract: numpy basic-indexing results, rows, reshape / ravel / transpose and asarray / ascontiguousarray of an array are modelled as views that write through to their base, and op= on an array writes in place, so an edit of a view of the lanelet vertices instead of a copy fails the frame obligation (shapely LineString.project / interpolate return unconstrained values; TrafficLight.draw, dashed markings, obstacle / planning-problem drawing and render() are not under contract; a later write to the base is not seen through an already taken view); protobuf export IS under contract (pbmodel); the scenario id carries an unsorted prediction-id list and the network a lanelet built with default arguments so that in-place normalisations show; pickling is covered through __getstate__/__setstate__ only; 'exporting before and after gives the same file' follows from view equality plus C15",
     technique="deductive: frame condition (modifies nothing observable) by AST symbolic execution of real source with structural snapshots, discharged by z3",
     design_ref="5/C18",
 )
